@@ -2,6 +2,7 @@
 from lib import cfg
 from rules import common
 
+CRATES = ("agdb",)
 EXPLANATION = (
     "Static analysis: (R10a) the bidirectional map updates both directions together: IndexedMapImpl::insert inserts into "
     "both maps on every success path and removes both displaced entries, remove_key/remove_value remove from both; "
